@@ -402,6 +402,8 @@ def _pda_step_models(ctx, rep):
 
 
 def check_C10(ctx, rep):
+    small_models2.check_pda_to_cfg(ctx, rep, ctx.prog.func('pda_algorithms.pda_to_cfg'))
+    rep.clauses_decided.append('pda_to_cfg returns a grammar whose start variable derives exactly the accepted words up to length 3 resp. 2 on eight model PDAs (replacing and stack-neutral moves, symbols left on the stack, several final states) under two iteration orders of sets; the PDA handed in is untouched (M33, finite model)')
     rep.clauses_decided += ['pure twins deep-copy and call the in-place normal form (R-TWIN)', 'input PDA not modified (R-EFFECT)',
                             'states, bottom marker and dummy symbol are fresh (R-FRESH)',
                             'push/pop case split: for all (u,v) over {eps,x,y}^2 one branch is taken and the inserted chain pops u / pushes v with push-or-pop moves only (M5)',
